@@ -65,8 +65,10 @@ def run_case(case):
     had_stub_cache = set()
     nontriv = False
     tags = set()
+    diffs = []
     for k, op in enumerate(case["ops"]):
         tags.add("op:" + op[0])
+        before = {i: (bool(sd.node_data(i)["expanded"]), sd.dag.out_degree(i), cached(sd, i)) for i in sd.node_ids()}
         try:
             if op[0] == "setsq":
                 sd.node_attractor_sets(op[1] % len(sd), compute=True)
@@ -76,6 +78,17 @@ def run_case(case):
                 plain.apply_op(sd, ni, op)
         except RuntimeError:
             pass
+        # protocol trace (tie to Balm.Cache): a node that was given successors by this operation must
+        # not keep any cache object it had before (absent, or newly written, is fine)
+        for i, (was_exp, was_deg, old) in before.items():
+            if i >= len(sd):
+                continue
+            if was_deg == 0 and sd.dag.out_degree(i) > 0 and not was_exp and op[0] != "pickle":
+                new = cached(sd, i)
+                for name, o_, n_ in zip(("attractor_seeds", "attractor_candidates", "attractor_sets"), old, new):
+                    if o_ is not None and n_ is o_:
+                        diffs.append({"stream": "cache protocol (Balm.Cache.giveSucc discards all three fields)",
+                                      "at": f"op{k}:{op[0]}", "node": i, "field": name})
         for i in sd.node_ids():
             seeds, cands, sets = cached(sd, i)
             d = sd.node_data(i)
@@ -120,7 +133,7 @@ def run_case(case):
         fails += fs
         if fs:
             break
-    return {"fails": fails, "diffs": [], "tags": sorted(tags), "nontrivial": nontriv, "sig": common.case_hash(case)}
+    return {"fails": fails, "diffs": diffs, "tags": sorted(tags), "nontrivial": nontriv, "sig": common.case_hash(case)}
 
 
 def shrink(case, fail):
